@@ -8,6 +8,7 @@
 //!                | ro (like d, but `*.set_read_only` switch read-only ON) | fixture (collection.ensure creates `c1`)
 //!        target may also be raw:S - the raw request target (path and query) - which the model routes itself
 //!   restart                (clean stop, new AppState over the same store)
+//!   fault <k>              (the PUT of <primary>/db_meta.cbor - registry and key map - fails once, after k more such PUTs)
 //!   crash                  (the process dies without flushing; new AppState over what the store holds; the model treats it as restart)
 //!   fixture <S>            (harness only: populate database S through the admin; not sent to the model)
 //!
@@ -62,6 +63,9 @@ pub enum Op {
     Restart,
     /// the process dies (nothing is flushed or closed) and a new one starts over what the store holds
     Crash,
+    /// arm a single-shot storage fault: the PUT of the primary's metadata object fails after `k` more
+    /// such PUTs succeeded (disarmed by restart / crash)
+    Fault(usize),
     Fixture(String),
 }
 
@@ -192,6 +196,7 @@ impl Op {
             Op::Cfg(c) => format!("cfg {} {} {}", opt_enc(&c.admin), enc_str(&c.primary), c.max),
             Op::Restart => "restart".into(),
             Op::Crash => "crash".into(),
+            Op::Fault(k) => format!("fault {k}"),
             Op::Fixture(n) => format!("fixture {}", enc_str(n)),
             Op::Req(r) => {
                 let target = match &r.target {
@@ -220,6 +225,7 @@ impl Op {
             ["cfg", a, p, m] => Some(Op::Cfg(CfgLine { admin: opt_dec(a)?, primary: dec_str(p)?, max: m.parse().ok()? })),
             ["restart"] => Some(Op::Restart),
             ["crash"] => Some(Op::Crash),
+            ["fault", k] => Some(Op::Fault(k.parse().ok()?)),
             ["fixture", n] => Some(Op::Fixture(dec_str(n)?)),
             ["req", verb, target, auth, ct, accept, body @ ..] => {
                 let mut raw = None;
